@@ -96,6 +96,9 @@ def resolve_class(name):
     return o
 
 
+_MUTATORS = {'append', 'appendleft', 'extend', 'insert', 'pop', 'popleft', 'remove', 'clear', 'add', 'discard', 'update', 'setdefault', 'sort', 'reverse'}
+
+
 class LoopSpec:
     def __init__(self, cfg, top, func, label):
         self.cfg = cfg
@@ -143,6 +146,23 @@ class LoopSpec:
         # comprehension / lambda targets are local to their own scope
         fr = path.scope[0]
         vars = path.wobj(fr).vars
+        # a local container (created in this activation, so not covered by `modifies`) that the loop
+        # body mutates in place must be havocked too: it needs a declared type in loop_locals
+        old_heap = path.snapshots.get('old', {})
+        for x in ast.walk(node):
+            recv = None
+            if isinstance(x, ast.Call) and isinstance(x.func, ast.Attribute) and x.func.attr in _MUTATORS:
+                recv = x.func.value
+            elif isinstance(x, ast.Subscript) and isinstance(x.ctx, (ast.Store, ast.Del)):
+                recv = x.value
+            elif isinstance(x, ast.AugAssign):
+                recv = x.target
+            if isinstance(recv, ast.Name) and recv.id in vars and recv.id not in names:
+                v = vars[recv.id]
+                if isinstance(v, Ref) and v.oid not in old_heap and isinstance(path.obj(v), (LObj, DObj, BAObj)):
+                    if recv.id not in self.locals_t:
+                        raise Unsupported(f'loop mutates the local container {recv.id!r} in place: declare its type in loop_locals')
+                    names.add(recv.id)
         for n in sorted(names):
             if n in self.locals_t:
                 vars[n] = self.cfg.fresh(path, self.locals_t[n], n)
